@@ -27,7 +27,7 @@ CLAIMS = {
             TECH_K, "§3 C01"),
     "C02": ("proof",
             "Primitives that move a job between buckets: JobRemovalTracker::try_remove_job (exact whole-state postcondition: job leaves one tour entirely and is queued once, locked/other routes/unassigned/ignored untouched, "
-            "false => nothing changes) verified against the verified contracts of every Tour mutator (representation invariant jobs == jobs of activities); Verus, unbounded; lemma L02: removal / insertion / finalisation steps satisfying these contracts conserve, for every job, the number of places it lives in; insertion application / failure handling / finalisation / re-queuing (insertions.rs verbatim) keep every job accounted exactly once on small constant-shaped states (Kani, bounded; the heavier ones in the thorough tier only)." + GLUE,
+            "false => nothing changes) verified against the verified contracts of every Tour mutator (representation invariant jobs == jobs of activities); Verus, unbounded; lemma L02: removal / insertion / finalisation steps satisfying these contracts conserve, for every job, the number of places it lives in; insertion application / failure handling / finalisation / re-queuing (insertions.rs verbatim) keep every job accounted exactly once on small constant-shaped states (Kani, bounded; the heavier ones in the thorough tier only). Clustering: get_filter_policy (clustering_reader.rs verbatim, U02d, bounded) keeps every relation job and every user-excluded job out of vicinity clustering." + GLUE,
             "Trusted: Verus/Z3; Job identity model (Arc pointer identity), Vec::retain contract; insertion application, finalisation, route removal, decomposition merge, solution_writer are NOT under contract.",
             TECH_V, "§3 C02"),
     "C03": ("model_checking",
